@@ -43,7 +43,7 @@ BEAT_PARAMS = {
     "cemgil": {"cemgil_sigma": [0.04, 1 / 32, 1 / 8]},
     "goto": {"goto_threshold": [0.35, 0.25, 0.5], "goto_mu": [0.2, 0.125, 0.25],
              "goto_sigma": [0.2, 0.125, 0.25]},
-    "p_score": {"p_score_threshold": [0.2, 0.25, 0.125]},
+    "p_score": {"p_score_threshold": [0.2, 0.25, 0.125, 0.625, 0.875]},
     "continuity": {"continuity_phase_threshold": [0.175, 0.125, 0.25],
                    "continuity_period_threshold": [0.175, 0.125, 0.25]},
     # even values are admitted (the function only warns)
@@ -84,7 +84,7 @@ def gen_onset(r):
             "cls": "%s/%s" % (_size_cls(ref.size), _size_cls(est.size))}
 
 
-ONSET_PARAMS = {"window": [0.05, 1 / 32, 1 / 16, 1 / 8, 0.25]}
+ONSET_PARAMS = {"window": [0.05, 1 / 32, 1 / 16, 1 / 8, 0.25, 0.0]}
 
 
 def calls_onset(inp, r):
@@ -432,6 +432,8 @@ def eval_melody(inp, r):
                          # never a value on the pitch lattice (f == base is 0 cents,
                          # which the library reads as "no pitch")
                          "base_frequency": [10.0, 20.0, 100.0, 300.0, 1000.0]}, 0.6)
+    if r.random() < 0.2:
+        kw["kind"] = pick(r, ["nearest", "zero", "slinear", "quadratic", "cubic"])
     args = (inp["ref_time"], inp["ref_freq"], inp["est_time"], inp["est_freq"],
             inp["est_voicing"], inp["ref_reward"])
     return args, kw
@@ -623,7 +625,7 @@ def gen_pattern(r, max_pat=5):
     else:
         ref = patterns(r.randrange(1, max_pat + 1))
     kind = r.choice(["independent", "copy", "translated", "subset", "empty", "mixed",
-                     "mixed", "partial", "partial", "nudged"])
+                     "mixed", "partial", "partial", "nudged", "drift", "drift", "shared"])
     if kind == "partial":
         # every occurrence keeps only part of its notes, so cardinality scores
         # land between the 0.5 and 0.75 occurrence thresholds
@@ -649,6 +651,26 @@ def gen_pattern(r, max_pat=5):
                 k = r.randrange(1, len(p[0]))
                 t, m = p[0][k]
                 p[0][k] = (t + r.choice([1, -1, 2]) / 128.0, m)
+    elif kind == "shared" and len(ref) >= 2:
+        # two reference patterns that are variants of each other (a theme and the
+        # theme without its last notes) share one estimated pattern; a second
+        # estimated pattern matches its reference only partially
+        dup = [o[:-1] if len(o) > 2 else list(o) for o in copy.deepcopy(ref[0])]
+        ref = ref + [dup]
+        part = []
+        for o in ref[1]:
+            k = max(1, int(round(len(o) * 0.7)))
+            part.append(list(o[:k]) + [(t + 0.125, m + 1.0) for t, m in o[k:]])
+        est = [copy.deepcopy(ref[0]), part]
+        if r.random() < 0.5:
+            est.reverse()
+    elif kind == "drift":
+        # copies whose prototype lags a little more with every note (each step is
+        # small, the accumulated offset is not)
+        est = copy.deepcopy(ref)
+        for p in est:
+            step = r.choice([0.25, 0.125])
+            p[0] = [(t + step * k, m) for k, (t, m) in enumerate(p[0])]
     elif kind == "translated":
         est = [[_translate(o, 8.0, 2.0) for o in p] for p in ref]
     elif kind == "subset":
@@ -695,7 +717,7 @@ def calls_pattern(inp, r):
         inp = pattern_as_lists(inp)
     a = (inp["ref"], inp["est"])
     return [
-        ("pattern.standard_FPR", a, draw_params(r, {"tol": [1e-5, 0.5]})),
+        ("pattern.standard_FPR", a, draw_params(r, {"tol": [1e-5, 0.5, 0.3, 0.3, 0.15]}, 0.35)),
         ("pattern.establishment_FPR", a, {}),
         ("pattern.occurrence_FPR", a, draw_params(r, {"thres": [0.75, 0.5, 1.0, 0.25]})),
         ("pattern.three_layer_FPR", a, {}),
@@ -708,7 +730,7 @@ def eval_pattern(inp, r):
     if r.random() < 0.15:
         inp = pattern_as_lists(inp)
     return (inp["ref"], inp["est"]), draw_params(r, {"n": [5, 1, 2, 10],
-                                                     "tol": [1e-5, 0.5]}, 0.7)
+                                                     "tol": [1e-5, 0.5, 0.3]}, 0.7)
 
 
 # ------------------------------------------------------------- hierarchy
@@ -813,6 +835,12 @@ def gen_alignment(r):
     est = np.sort(est)
     if r.random() < 0.15:
         est = ref.copy()
+    if r.random() < 0.12:
+        # whole seconds in integer-typed arrays on one or both sides
+        ref = np.unique(np.round(ref)).astype(np.int64)
+        est = np.sort(np.array([max(0, int(x) + r.choice([0, 0, 1, -1, 2])) for x in ref]))
+        if r.random() < 0.5:
+            est = est.astype(float) + r.choice([0.0, 0.25, 0.5])
     return {"ref": ref, "est": est, "cls": _size_cls(ref.size)}
 
 
@@ -825,7 +853,7 @@ def calls_alignment(inp, r):
     ]
     dur = None
     if r.random() < 0.5:
-        dur = float(max(inp["ref"].max(), inp["est"].max()) + r.choice([0, 1, 8]) / Q)
+        dur = float(max(inp["ref"].max(), inp["est"].max()) + r.choice([0, 1, 8, 32, 96]) / Q)
         if dur <= 0:
             dur = 1.0
     if dur is not None or (inp["ref"][-1] - inp["ref"][0]) > 0:
